@@ -29,12 +29,19 @@ fn gen_len16(src: &mut Source) -> usize {
     }
 }
 
+/// letters whose code points collide when reduced to a small table (equal modulo 256 / 128):
+/// a (61) š (161) ɡ (261) ѡ (461); 1 (31) ı (131) б (431); k (6B) ū (16B)
+pub const ALPHA_COLLIDE: [char; 9] = ['a', 'š', 'ɡ', 'ѡ', '1', 'ı', 'б', 'k', 'ū'];
+
 fn gen_word16(src: &mut Source, n: usize) -> Vec<char> {
-    let k = src.range(2, 6);
+    let collide = src.chance(1, 4);
+    let k = if collide { src.range(2, 9) } else { src.range(2, 6) };
     let mut v: Vec<char> = Vec::with_capacity(n);
     for _ in 0..n {
         if !v.is_empty() && src.chance(1, 6) {
             v.push(*v.last().unwrap()); // doubled letter
+        } else if collide {
+            v.push(ALPHA_COLLIDE[src.below(k)]);
         } else {
             v.push(ALPHA[src.below(k)]);
         }
@@ -45,6 +52,16 @@ fn gen_word16(src: &mut Source, n: usize) -> Vec<char> {
 pub fn decode_random(src: &mut Source) -> Box<dyn Case> {
     let mut pairs = Vec::new();
     while pairs.len() < 6 && (pairs.is_empty() || src.chance(3, 4)) {
+        if !pairs.is_empty() && src.chance(1, 4) {
+            // the same first word again, the second word extended (typing ahead / the next, longer
+            // record word with the same beginning) - possibly across a matrix growth step
+            let (a, b): (String, String) = pairs.last().cloned().unwrap();
+            let extra = gen_len16(src).max(1);
+            let mut b2: Vec<char> = b.chars().collect();
+            b2.extend(gen_word16(src, extra));
+            pairs.push((a, b2.into_iter().collect()));
+            continue;
+        }
         let la = gen_len16(src);
         let a = gen_word16(src, la);
         let b: Vec<char> = if src.chance(1, 2) {
@@ -77,6 +94,107 @@ pub fn decode_random(src: &mut Source) -> Box<dyn Case> {
         pairs.push((a.into_iter().collect(), b.into_iter().collect()));
     }
     Box::new(C16Case { pairs, exhaustive_cells: false, warmup: false })
+}
+
+/// pool-based call sequences on one instance: few words (some of them extensions of others,
+/// across the matrix growth steps), compared in random (first, second) combinations
+#[derive(Clone, Debug, Hash)]
+pub struct C16Calls {
+    pub pool: Vec<String>,
+    pub calls: Vec<(usize, usize)>,
+}
+
+pub fn decode_calls(src: &mut Source) -> Box<dyn Case> {
+    let np = src.range(2, 5);
+    let mut pool: Vec<Vec<char>> = Vec::new();
+    for _ in 0..np {
+        let v: Vec<char> = match src.weighted(&[5, 3, 2, 1]) {
+            1 if !pool.is_empty() => {
+                let mut v = src.pick(&pool).clone();
+                let extra = gen_len16(src).max(1);
+                v.extend(gen_word16(src, extra));
+                v
+            }
+            2 if !pool.is_empty() => {
+                let mut v = src.pick(&pool).clone();
+                if !v.is_empty() {
+                    let k = src.below(v.len());
+                    match src.below(3) {
+                        0 => {
+                            v.remove(k);
+                        }
+                        1 => v.insert(k, ALPHA[src.below(6)]),
+                        _ => {
+                            if k + 1 < v.len() {
+                                v.swap(k, k + 1)
+                            }
+                        }
+                    }
+                }
+                v
+            }
+            3 => vec![ALPHA[src.below(6)]],
+            _ => {
+                let n = gen_len16(src);
+                gen_word16(src, n)
+            }
+        };
+        pool.push(v);
+    }
+    let mut calls = Vec::new();
+    while calls.len() < 10 && (calls.len() < 3 || src.chance(5, 6)) {
+        calls.push((src.below(pool.len()), src.below(pool.len())));
+    }
+    Box::new(C16Calls { pool: pool.into_iter().map(|v| v.into_iter().collect()).collect(), calls })
+}
+
+impl Case for C16Calls {
+    fn describe(&self) -> Value {
+        json!({"pool": self.pool, "calls_first_second": self.calls})
+    }
+    fn key(&self) -> u64 {
+        hash64(self)
+    }
+    fn check(&self, ctx: &mut Ctx) -> Result<(), Violation> {
+        let lang = lang_english();
+        let shared = DamerauLevenshtein::new();
+        let texts: Vec<TextOwn> = self.pool.iter().map(|w| text(&w.chars().collect::<Vec<_>>(), &lang)).collect();
+        let mut any = false;
+        for (n, &(i, j)) in self.calls.iter().enumerate() {
+            let d = shared.distance(&texts[i].view(0), &texts[j].view(0));
+            let fresh = DamerauLevenshtein::new();
+            let df = fresh.distance(&texts[i].view(0), &texts[j].view(0));
+            let info = |x: String| format!("call #{} distance({:?}, {:?}): {}; earlier calls on the same instance (pool indices) {:?}, pool {:?}", n, self.pool[i], self.pool[j], x, &self.calls[..n], self.pool);
+            if d != df {
+                return ctx.fail("history-independence", "", info(format!("long-lived instance says {} a fresh instance says {}", d, df)));
+            }
+            // every cell word_match may read must equal what a fresh instance leaves behind
+            let (la, lb) = (self.pool[i].chars().count(), self.pool[j].chars().count());
+            let ms = shared.dists.borrow();
+            let mf = fresh.dists.borrow();
+            let step = if la * lb > 400 { 3 } else { 1 };
+            let mut a = 0;
+            while a <= la {
+                let mut b = 0;
+                while b <= lb {
+                    ctx.count("prefix_cells", 1);
+                    if ms.get(a + 1, b + 1) != mf.get(a + 1, b + 1) {
+                        return ctx.fail("prefix-cell", "", info(format!("cell for prefixes ({}, {}) holds {} on the long-lived instance and {} on a fresh one", a, b, ms.get(a + 1, b + 1), mf.get(a + 1, b + 1))));
+                    }
+                    b += step;
+                }
+                a += step;
+            }
+            if d > 0.0 {
+                any = true;
+            }
+        }
+        ctx.label_if(self.pool.iter().any(|w| w.chars().count() > 20), "beyond-initial-capacity");
+        if any {
+            ctx.nontrivial();
+        }
+        Ok(())
+    }
 }
 
 pub fn decode_small(src: &mut Source) -> Box<dyn Case> {
@@ -219,6 +337,7 @@ impl Case for C16Case {
             ctx.label_if(has_rep, "doubled-letter");
             ctx.label_if(transposable, "transposable-pair");
             ctx.label_if(d < l, "discounted");
+            ctx.label_if(ca.iter().chain(cb.iter()).any(|c| *c as u32 > 0xff), "non-latin1-letters");
             if d > 0.0 && (has_rep || transposable) {
                 ctx.nontrivial();
             }
@@ -237,6 +356,7 @@ pub fn def() -> PropDef {
         spaces: vec![
             Space { name: "small", decode: decode_small, plan: |t| match t { Tier::Quick => Plan::Enumerate(enumerate_pairs(3), true, "all ordered pairs of words of length <= 3 over 6 symbols"), Tier::Thorough => Plan::Enumerate(enumerate_pairs(4), true, "all ordered pairs of words of length <= 4 over 6 symbols") } },
             Space { name: "random", decode: decode_random, plan: |t| Plan::Random(t.n(200_000, 4_000_000)) },
+            Space { name: "calls", decode: decode_calls, plan: |t| Plan::Random(t.n(120_000, 2_500_000)) },
         ],
         differential: false,
         floors: &[("prefix_cells", 5.0)],
